@@ -96,7 +96,7 @@ def recOf (s : State) (id : Nat) : Option Rec := s.tracked.find? (fun r => r.id 
 def W.of (n : Nat) : W := BitVec.ofNat 64 n
 
 def freeAll (c : Cfg) (s : State) : State :=
-  s.tracked.foldl (fun st r => (deallocMemory c st r.fam (some r.id) (r.fam == famMalloc)).1) s
+  s.tracked.foldl (fun st r => (release c st r.fam (some r.id) (r.fam == famMalloc)).1) s
 
 def modelStep (d : DState) (op : List String) (obs : List (List String)) : DState × List String :=
   let c := d.cfg
@@ -143,7 +143,7 @@ def modelStep (d : DState) (op : List String) (obs : List (List String)) : DStat
   | ["free", fam, id] =>
     match famOf fam, id.toNat? with
     | some f, some i =>
-      let (s1, evs, out) := deallocMemory c d.det f (some i) (f == famMalloc)
+      let (s1, evs, out) := release c d.det f (some i) (f == famMalloc)
       let ubl := match out with | .ub why => [s!"ub {why}"] | _ => []
       ({ d with det := s1 }, evs.flatMap (renderEv false false) ++ ubl ++ [s!"total {s1.tracked.length}"])
     | _, _ => (d, ["bad-op"])
@@ -218,14 +218,14 @@ def modelStep (d : DState) (op : List String) (obs : List (List String)) : DStat
   | ["gfree", id] =>
     match id.toNat? with
     | some i =>
-      let (s1, evs, _) := deallocMemory c d.glob famMalloc (some i) true
+      let (s1, evs, _) := cFree c d.glob (some i)
       ({ d with glob := s1 }, evs.flatMap (renderEv true false) ++ [s!"delta {(s1.tracked.length : Int) - d.glob.tracked.length}"])
     | none => (d, ["bad-op"])
   | ["gdelete", id] =>
     match id.toNat? with
     | some i =>
       let f := ((recOf d.glob i).map (·.fam)).getD famNew
-      let (s1, evs, _) := deallocMemory c d.glob f (some i) false
+      let (s1, evs, _) := operatorDelete c d.glob (f == famNewArray) (some i)
       ({ d with glob := s1 }, evs.flatMap (renderEv true false) ++ [s!"delta {(s1.tracked.length : Int) - d.glob.tracked.length}"])
     | none => (d, ["bad-op"])
   | ["gnew", v, size, seed] =>
@@ -389,6 +389,8 @@ def decodeReq (sh : Shadow) (op : List String) : Except String Req :=
 def specStep (sh : Shadow) (o : Proto.Op) : Except String Shadow := do
   let obs := o.obs
   let ms := misuses obs
+  if hasLine obs ["ufree", "0"] || hasLine obs ["unodefree", "0"] then
+    throw "the platform free was handed a pointer that is not the start of a live platform block"
   match o.op with
   | ["config"] =>
     match (obsNums obs "cfg").head? with
@@ -447,7 +449,10 @@ def specStep (sh : Shadow) (o : Proto.Op) : Except String Shadow := do
     match sh.live.find? (fun b => b.id == i && !b.glob) with
     | some _ =>
       if !ms.isEmpty then throw s!"free of live block {i} reported misuse {ms} (block no longer tracked or damaged)"
-      if !hasLine obs ["ufree", toString i] then throw s!"free of live block {i} did not return it to the platform"
+      if ((obsNums obs "ufree").filter (· == [i])).length != 1 then
+        throw s!"free of live block {i}: the platform free was not called exactly once with the block's own pointer"
+      if sh.live.any (fun b => b.id != i && (freedIds obs).contains b.id) then
+        throw s!"free of live block {i} also released another live block"
       if totalOf obs != some (sh.total - 1) then throw s!"free of live block {i}: tracked total did not shrink by one"
       return { sh with live := sh.live.filter (fun b => !(b.id == i && !b.glob)), total := sh.total - 1 }
     | none =>
@@ -507,7 +512,10 @@ def specStep (sh : Shadow) (o : Proto.Op) : Except String Shadow := do
   | ["gfree", id] | ["gdelete", id] =>
     let some i := id.toNat? | throw "bad gfree"
     if !ms.isEmpty then throw s!"release of live block {i} reported misuse {ms}"
-    if !hasLine obs ["pf", toString i] then throw s!"release of live block {i} did not return it to the platform"
+    if ((obsNums obs "pf").filter (· == [i])).length != 1 then
+      throw s!"release of live block {i}: the platform free was not called exactly once with the block's own pointer"
+    if sh.live.any (fun b => b.id != i && (freedIds obs).contains b.id) then
+      throw s!"release of live block {i} also released another live block"
     if deltaOf obs != some (-1) then throw s!"release of live block {i}: tracked total did not shrink by one"
     return { sh with live := sh.live.filter (fun b => !(b.id == i && b.glob)) }
   | ["finish"] =>
